@@ -1,4 +1,5 @@
-From VP Require Import Base.Tactics Value.Model Value.ProofsBase Value.ProofsEq Value.ProofsHash Value.Props.
+From VP Require Import Base.Tactics Value.Model Value.ProofsBase Value.ProofsEq Value.ProofsHash Value.FloatSpec Value.Props.
+From Flocq Require Import IEEE754.Binary IEEE754.Bits.
 Open Scope Z_scope.
 
 Check (C40_refl : forall a, wf a = true -> veq a a = true).
